@@ -528,8 +528,9 @@ pub fn c12(ctx: &mut Ctx) {
             continue;
         }
         // P: a complete paragraph without double quotes, ending in a terminator + blank line
-        let mut p = match r.below(7) {
+        let mut p = match r.below(8) {
             0 => gen_clause(&mut r, &corpus, 9, 6),
+            7 => format!("{} {}", r.pick_str(&["See Appendix", "Apples, pears,", "Smith", "Chapter", "Note", "Teh plan", "Cf. item"]), r.pick_str(&["B", "etc", "et al", "U.S", "I", "vs", "3", "x.y"])),
             6 => format!("{} {}", r.pick(&corpus.sentences).trim_end_matches(['.', '!', '?']), r.pick_str(&["plan B", "in the U.S.A", "see Mr", "item 3", "than I", "point x", "vs", "etc", "e.g", "i.e", "at 5 p.m", "for $5", "to a@b.c", "on http://x.y/z", "the 1st", "in the 1990s", "a.b.c", "No"])),
             1 => format!("{} {}", r.pick(&corpus.sentences), r.pick_str(SPECIALS)),
             2 => format!("{} {}", r.pick(&corpus.sentences), r.pick_str(NUMBERS)),
@@ -544,7 +545,13 @@ pub fn c12(ctx: &mut Ctx) {
         let term = if p.ends_with(['.', '!', '?']) { "" } else { *r.pick(&[".", "!", "?"]) };
         let sep = *r.pick(&["\n\n", "\n\n", "\n\n\n"]);
         let p = format!("{p}{term}{sep}");
-        let d = match r.below(6) {
+        let d = match r.below(9) {
+            6 => p.trim_end().to_string(),
+            7 => {
+                // the same words in another capitalisation
+                p.trim_end().split(' ').map(|w| if r.chance(1, 3) { let mut c = w.chars(); match c.next() { Some(f) => if f.is_uppercase() { f.to_lowercase().collect::<String>() + c.as_str() } else { f.to_uppercase().collect::<String>() + c.as_str() }, None => String::new() } } else { w.to_string() }).collect::<Vec<_>>().join(" ")
+            }
+            8 => format!("{} {}", r.pick_str(&["teh", "Teh", "definately", "Definately", "recieve", "Recieve", "alot", "Alot"]), r.pick(&corpus.sentences).to_lowercase()),
             0 => gen_clause(&mut r, &corpus, 9, 6),
             1 => gen_unicode(&mut r, &corpus, 8),
             2 => format!("{}{}", r.pick_str(&["\n", " ", "1", "@", ":", "- ", "\"", "  "]), r.pick(&corpus.sentences)),
